@@ -13,11 +13,26 @@ def run(task):
     out = []
     for case in task["cases"]:
         rec = {"idx": case["idx"], "g": case["g"], "L": case["L"], "family": case["family"],
-               "res": "ok", "exc": "", "stage": "", "bnf": "", "g2": case["g"]}
+               "res": "ok", "exc": "", "stage": "", "bnf": "", "g2": case["g"], "history": case.get("history") or ""}
         g = pj.json_to_grammar(case["g"])
         # transport sanity: the implementation's grammar value projects back to the case
         rec["proj_ok"] = pj.grammar_to_json(g) == case["g"]
         try:
+            if case.get("history"):
+                # an earlier round trip of the same grammar in this interpreter, whose result is then used the way
+                # callers use it (changed in place / handed to a solver with another start symbol)
+                try:
+                    text0 = unparse_grammar(g)
+                    g0 = parse_bnf(text0)
+                    if case["history"] == "mutate":
+                        g0.setdefault("<start>", []).append("<zz-added>")
+                        g0["<zz-added>"] = ["zz"]
+                    else:
+                        from isla.solver import ISLaSolver
+                        other = [n for n in g if n != "<start>"]
+                        ISLaSolver(text0, start_symbol=other[-1])
+                except Exception:
+                    pass          # the recorded round trip below is what is judged
             rec["stage"] = "unparse_grammar"
             text = unparse_grammar(g)
             rec["bnf"] = text
